@@ -249,7 +249,10 @@ func run(c Case) *pbt.Violation {
 					if !(cs.Kind == "rtmp" && c.Merge > 0) && itemToP[k] > 0 && expectsData(c, &P, cs, itemToP) {
 						want := P.recs[itemToP[k]-1]
 						wk := recKey(want)
-						if lv.c.WaitFor(func(r lalclient.Rec) bool { return recKey(r) == wk }, lalclient.DeliverTimeout) < 0 {
+						_ = wk
+					// (waits are by content: a message that arrives with an altered timestamp must end the wait and be
+					// reported as such by the oracle, not time out)
+					if lv.c.WaitFor(func(r lalclient.Rec) bool { return r.Type == want.Type && bytes.Equal(r.Payload, want.Payload) }, lalclient.DeliverTimeout) < 0 {
 							return pbt.V("run-ended-early/"+cs.Kind, "consumer %d (%s, joined at item %d) left after item %d was processed but never received it (%s); got %d records",
 								i, cs.Kind, cs.JoinAt, k-1, want, len(lv.c.Recs()))
 						}
@@ -290,12 +293,12 @@ func run(c Case) *pbt.Violation {
 	if v := s.PanicViolation(); v != nil {
 		return v
 	}
-	markerKey := recKey(P.recs[markerP])
+	mkRec := P.recs[markerP]
 	for i, lv := range cons {
 		if lv == nil || lv.left {
 			continue
 		}
-		if lv.c.WaitFor(func(r lalclient.Rec) bool { return recKey(r) == markerKey }, lalclient.DeliverTimeout) < 0 {
+		if lv.c.WaitFor(func(r lalclient.Rec) bool { return r.Type == mkRec.Type && bytes.Equal(r.Payload, mkRec.Payload) }, lalclient.DeliverTimeout) < 0 {
 			if err := lv.c.Err(); err != nil {
 				return pbt.V("framing/"+lv.spec.Kind, "consumer %d (%s): %v", i, lv.spec.Kind, err)
 			}
